@@ -1,6 +1,6 @@
 SPECIFICATION Spec
 CONSTANTS
-  Families = {"A1", "B", "C0", "E", "K"}
+  Families = {"A1", "B", "C0", "E", "K0"}
 INVARIANT CacheInDatainfo
 INVARIANT ConstantsHold
 PROPERTY DriverOnlyIfAllowed
